@@ -64,6 +64,10 @@ pub mod ev {
     /// well-formedness an environment needs for get_var (true for the map-like ones; BuildImplicitVars needs valid ids)
     pub uninterp spec fn env_ok<E: ?Sized>(e: &E) -> bool;
     pub open spec fn envs_ok(envs: Seq<&dyn Env>) -> bool { forall|i: int| 0 <= i < envs.len() ==> env_ok(#[trigger] envs[i]) }
+    /// TRUSTED (dynamic dispatch): calling get_var through `&dyn Env` runs the implementation of the concrete type
+    pub broadcast axiom fn ax_dyn_vars(e: &Vars, var: Seq<char>)
+        ensures #[trigger] binds::<dyn Env>(dynenv(e), var) == binds(e, var);
+    pub broadcast axiom fn ax_dyn_vars_ok(e: &Vars) ensures #[trigger] env_ok::<dyn Env>(dynenv(e)) == env_ok(e);
     pub broadcast axiom fn ax_env_ok_vars(v: &Vars)
         ensures #[trigger] env_ok(v);
     pub broadcast axiom fn ax_cow_owned(s: String)
